@@ -1530,7 +1530,9 @@ void XMLReader::doInitDecode()
             if (((fRawByteBuf[0] == 0x00) && (fRawByteBuf[1] == 0x00) && (fRawByteBuf[2] == 0xFE) && (fRawByteBuf[3] == 0xFF)) ||
                 ((fRawByteBuf[0] == 0xFF) && (fRawByteBuf[1] == 0xFE) && (fRawByteBuf[2] == 0x00) && (fRawByteBuf[3] == 0x00))  )
             {
-                for (XMLSize_t i = 0; i < fRawBytesAvail; i++)
+                // move the bytes after the BOM down (only those that are there:
+                // reading up to index fRawBytesAvail+3 overruns a full buffer)
+                for (XMLSize_t i = 0; i + 4 < fRawBytesAvail; i++)
                     fRawByteBuf[i] = fRawByteBuf[i+4];
 
                 fRawBytesAvail -=4;
